@@ -154,9 +154,11 @@ func setup(scratch string) error {
 			return err
 		}
 		cluster := "---\nEnable: " + v[1] + "\nNodeCtrl: false\nName: vcluster\nETCDServer: " + v[2] + "\n"
+		// every node lists one service that has NO entry under services: - App.StartServices logs and skips
+		// it, and the start-completion callback of StartNode is still due exactly once (seed C11-11)
 		nodes := "---\nnodes:\n"
 		for _, n := range [][2]string{{"node-afree", "127.0.0.1:0"}, {"node-abusy", lis.Addr().String()}, {"node-abad", "badaddr"}, {"node-afixed", "127.0.0.1:0"}} {
-			nodes += "  " + n[0] + ":\n    StartMode: " + launchName + "\n    Address: " + n[1] + "\n    Services: []\n"
+			nodes += "  " + n[0] + ":\n    StartMode: " + launchName + "\n    Address: " + n[1] + "\n    Services: [svc-ghost]\n"
 		}
 		nodes += "services: {}\n"
 		if err := os.WriteFile(filepath.Join(d, "cluster.yaml"), []byte(cluster), 0o644); err != nil {
@@ -222,14 +224,15 @@ type capture struct {
 }
 
 type executor struct {
-	mu      sync.Mutex
-	env     envT
-	cur     []any // events of the operation in progress
-	caps    []capture
-	fired   map[int]int
-	nruns   int64
-	runFwd  []bool
-	curCall *callCtx // the Start/Stop call (or fired continuation) in progress
+	mu           sync.Mutex
+	env          envT
+	cur          []any // events of the operation in progress
+	setupEscaped bool  // a panic escaped the set-up StartNode of an MListNode case
+	caps         []capture
+	fired        map[int]int
+	nruns        int64
+	runFwd       []bool
+	curCall      *callCtx // the Start/Stop call (or fired continuation) in progress
 	// a request made from inside a completion callback is in progress since / was made by run
 	nestedSince atomic.Int64
 	nestedBy    atomic.Int64
@@ -484,6 +487,10 @@ func (x *executor) fire(k int64, b bool) {
 
 func (x *executor) do(o hx.T) []any {
 	x.cur = []any{}
+	if x.setupEscaped {
+		x.setupEscaped = false
+		x.cur = append(x.cur, hx.C("EEscape", int64(-1)))
+	}
 	if !x.dead {
 		switch o.Name {
 		case "OStart":
@@ -546,7 +553,16 @@ func newExecutor(ops []hx.T) (*executor, error) {
 	if env.mode == "MListNode" {
 		// give the node its node info: start it with a launch list that registers nothing
 		x.added = true
-		x.node.StartNode(nodeID(env.addr), func(bool) {})
+		func() {
+			// a panic escaping this set-up call is an observation of the case (reported with its first
+			// operation), not the end of the harness (seed C11-11 made StartServices dereference nil)
+			defer func() {
+				if p := recover(); p != nil {
+					x.setupEscaped = true
+				}
+			}()
+			x.node.StartNode(nodeID(env.addr), func(bool) {})
+		}()
 	}
 	if env.mode == "MList" || env.mode == "MListNode" {
 		x.ml = module.NewModList()
